@@ -2,16 +2,21 @@ import SosModel.Drv.Merkle
 import SosModel.Drv.Log
 import SosModel.Drv.Codec
 import SosModel.Drv.Sync
+import SosModel.Drv.Folder
 open Sos
 
 /-- State threaded through a session (stateful domains add fields here). -/
 structure DrvState where
   log : Sos.Drv.Log.St := {}
+  folder : Sos.Drv.Folder.St := {}
 
 def stepLine (st : DrvState) (line : String) : DrvState × String :=
   let toks := (line.trimAscii.toString.splitOn " ").filter (· ≠ "")
   match toks with
   | "merkle" :: rest => (st, Sos.Drv.Merkle.step rest)
+  | "folder" :: rest =>
+    let (f, o) := Sos.Drv.Folder.step st.folder rest
+    ({ st with folder := f }, o)
   | "sync" :: rest => (st, Sos.Drv.Sync.step rest)
   | "codec" :: rest => (st, Sos.Drv.Codec.step rest)
   | "log" :: rest =>
